@@ -33,7 +33,8 @@ RULE = ("battery: batdata generator (C01 domain) x outcome vector over the comma
         "with arbitrary lower bounds, request negative/zero/positive, x outcome vector. distinct = canonical case "
         "JSON; non-trivial = >=2 set_power calls and at least one non-ok outcome or non-zero excess")
 REQUIRED_BUCKETS = ["battery", "pv", "all-ok", "some-failed", "all-failed", "outcome:range", "outcome:client",
-                    "outcome:exc", "outcome:hang", "excess-nonzero", "multi-inverter-group", "followup-request", "pv-concurrent-requests"]
+                    "outcome:exc", "outcome:hang", "excess-nonzero", "multi-inverter-group", "followup-request", "pv-concurrent-requests",
+                    "reply-shortly-before-a-fractional-timeout", "unusable-battery-group-requested"]
 REQUIRED_COUNTERS = ["results_checked", "set_power_calls_observed"]
 ASSUMPTIONS = ["API boundary faked; timeouts in virtual time (5 s)"]
 
@@ -67,8 +68,14 @@ def gen(rng: Any, tier: str, i: int) -> Any:
         case["kind"] = "battery"
         vec = rng.choice(_outcome_vectors(rng, n_inv)) if n_inv > 3 else None
         case["vectors"] = [vec] if vec else "exhaustive"
-        case["latency"] = rng.choice([0.0, 0.0, 0.3, 4.9])
+        case["timeout"] = rng.choice([5.0, 5.0, 2.5, 0.5])
+        case["latency"] = rng.choice([0.0, 0.0, 0.3, 4.9]) if case["timeout"] == 5.0 else \
+            rng.choice([0.0, 0.8 * case["timeout"], 0.96 * case["timeout"]])
         case["followup"] = rng.random() < 0.3
+        if len(case["groups"]) >= 2 and rng.random() < 0.3:
+            # one requested battery group is unusable (its batteries report SoC NaN): it must not be commanded and
+            # must appear in neither component set of the result
+            case["unusable"] = rng.randrange(len(case["groups"]))
         return case
     n = rng.choice([1, 2, 2, 3, 3, 4, 6])
     invs = [{"id": 10 + j, "il": -rng.choice([0.0, 100.0, 500.0, 1000.0, 5000.0, round(rng.uniform(0, 3000), 1)])}
@@ -78,12 +85,16 @@ def gen(rng: Any, tier: str, i: int) -> Any:
     case = {"kind": "pv", "invs": invs, "power": power,
             "vectors": "exhaustive" if n <= 3 else [rng.choice(_outcome_vectors(rng, n))],
             "latency": rng.choice([0.0, 0.0, 0.3])}
+    case["timeout"] = rng.choice([5.0, 5.0, 2.5, 0.5])
+    if case["timeout"] != 5.0:
+        # a reply shortly before a timeout that has a fractional part (or is below one second) is a success
+        case["latency"] = rng.choice([0.0, 0.8 * case["timeout"], 0.96 * case["timeout"]])
     if n >= 2 and rng.random() < 0.4:
         # two requests for disjoint inverter subsets in flight at the same time (the distributor processes
         # disjoint component groups concurrently)
         cut = rng.randint(1, n - 1)
         case["concurrent"] = {"cut": cut, "power2": rng.choice([-1.0, -250.0, sum(i["il"] for i in invs[cut:]) / 2, 0.0])}
-        case["latency"] = rng.choice([0.3, 1.0])
+        case["latency"] = rng.choice([0.3, 1.0]) if case["timeout"] == 5.0 else 0.8 * case["timeout"]
         case["vectors"] = [rng.choice(_outcome_vectors(rng, n)) for _ in range(3)]
     return case
 
@@ -110,13 +121,15 @@ async def _battery_run(case: dict[str, Any], vec: list[str], out: dict[str, Any]
     status_ch = Broadcast(name="status")
     res_ch = Broadcast(name="results")
     res_rx = res_ch.new_receiver(limit=100)
-    mgr = BatteryManager(status_ch.new_sender(), res_ch.new_sender(), timedelta(seconds=TIMEOUT))
+    mgr = BatteryManager(status_ch.new_sender(), res_ch.new_sender(), timedelta(seconds=case.get("timeout", TIMEOUT)))
     await mgr.start()
 
     async def feed_all() -> None:
         now = datetime.now(timezone.utc)
         for g, grp in enumerate(case["groups"]):
             for j, b in enumerate(grp["bats"]):
+                if case.get("unusable") == g:
+                    b = dict(b, soc=float("nan"))
                 await api.feed(batdata.bat_id(g, j), batdata.mk_battery(batdata.bat_id(g, j), b, now))
             for j, i in enumerate(grp["invs"]):
                 await api.feed(batdata.inv_id(g, j), batdata.mk_inverter(batdata.inv_id(g, j), i, now))
@@ -157,7 +170,7 @@ async def _pv_run(case: dict[str, Any], vec: list[str], out: dict[str, Any]) -> 
     status_ch = Broadcast(name="status")
     res_ch = Broadcast(name="results")
     res_rx = res_ch.new_receiver(limit=100)
-    mgr = PVManager(status_ch.new_sender(), res_ch.new_sender(), timedelta(seconds=TIMEOUT))
+    mgr = PVManager(status_ch.new_sender(), res_ch.new_sender(), timedelta(seconds=case.get("timeout", TIMEOUT)))
     await mgr.start()
     now = datetime.now(timezone.utc)
     for inv in case["invs"]:
@@ -236,6 +249,12 @@ def _judge(case: dict[str, Any], vec: list[str], rnd: dict[str, Any], rec: Any, 
     if scomp & fcomp:
         rec.violation("succeeded-and-failed-components-overlap", w)
     addressed = {b for c in calls for b in rnd["inv_bats"][c["id"]]}
+    if case.get("unusable") is not None and case["kind"] == "battery":
+        dead = {batdata.bat_id(case["unusable"], j) for j in range(len(case["groups"][case["unusable"]]["bats"]))}
+        if dead & addressed:
+            rec.violation("unusable-battery-group-was-commanded", {**w, "unusable": sorted(dead)})
+        if dead & (scomp | fcomp):
+            rec.violation("unusable-battery-reported-as-succeeded-or-failed", {**w, "unusable": sorted(dead)})
     if scomp | fcomp != addressed:
         rec.violation("component-sets-differ-from-addressed-components", {**w, "addressed": sorted(addressed)})
     bad_calls = [c for c in calls if c["outcome"] != "ok"]
@@ -265,6 +284,10 @@ def check(case: dict[str, Any], rec: Any) -> None:
     import random
 
     rec.bucket(case["kind"])
+    if case.get("unusable") is not None:
+        rec.bucket("unusable-battery-group-requested")
+    if case.get("timeout", TIMEOUT) != TIMEOUT and case.get("latency", 0.0) > 0:
+        rec.bucket("reply-shortly-before-a-fractional-timeout")
     n = sum(len(g["invs"]) for g in case["groups"]) if case["kind"] == "battery" else len(case["invs"])
     if case["kind"] == "battery" and any(len(g["invs"]) > 1 for g in case["groups"]):
         rec.bucket("multi-inverter-group")
